@@ -3,14 +3,14 @@ derivation tree, and the three presentation mappings (LaTeX / Unicode / HTML) wi
 
 Written from the *statement* of C01/C13 (and the documented BNF), not from the parser code:
 
-    compound := [prefix] part [hyd [int] part] [prime] [charge] [suffix]
+    compound := [prefix] part (hyd [int] part){0,2} [prime] [charge] [suffix]        (one separator spelling per formula)
     part     := term+
     term     := (El | '(' part ')' | '[' part ']' | '{' part '}') [count]
 
 A derivation state is the tuple (core, hyd, chg, pre, suf, pr):
     core : part                     part = tuple of terms
     term : ('el', sym, count) | ('gr', 'xy' bracket pair, part, count)      count is a string ('' = absent)
-    hyd  : None | (sep, mult, part)
+    hyd  : None | (sep, mult, part) | ((sep, mult, part), (sep, mult, part))    [two hydrate parts]
 cost   : element 1, non-empty count 1, group 1, hydrate 1 (+1 for a multiplier), each decoration 1.
 """
 import itertools
@@ -93,6 +93,13 @@ def iter_parts(n, j=0, J=1):
         off += size
 
 
+def hyd_parts(h):
+    """the hydrate parts of a state as a tuple of (sep, mult, part) triples"""
+    if not h:
+        return ()
+    return (h,) if isinstance(h[0], str) else tuple(h)
+
+
 def s_part(p):
     return "".join(s_term(t) for t in p)
 
@@ -125,8 +132,8 @@ def charge_value(chg):
 def string_of(state):
     core, h, chg, pre, suf, pr = state
     s = (pre or "") + s_part(core)
-    if h:
-        s += h[0] + h[1] + s_part(h[2])
+    for hp in hyd_parts(h):
+        s += hp[0] + hp[1] + s_part(hp[2])
     return s + (pr or "") + (chg or "") + (suf or "")
 
 
@@ -135,8 +142,8 @@ def composition_of(state):
     core, h, chg, pre, suf, pr = state
     acc = {}
     comp_part(core, Fr(1), acc)
-    if h:
-        comp_part(h[2], Fr(h[1]) if h[1] else Fr(1), acc)
+    for hp in hyd_parts(h):
+        comp_part(hp[2], Fr(hp[1]) if hp[1] else Fr(1), acc)
     ref = {z: (int(v) if v.denominator == 1 else float(v)) for z, v in acc.items()}
     if chg:
         ref[0] = charge_value(chg)
@@ -150,8 +157,8 @@ def cost_of(state):
         return sum((1 + (1 if t[-1] else 0)) if t[0] == "el" else (1 + cp(t[2]) + (1 if t[-1] else 0)) for t in p)
 
     c = cp(core)
-    if h:
-        c += 1 + (1 if h[1] else 0) + cp(h[2])
+    for hp in hyd_parts(h):
+        c += 1 + (1 if hp[1] else 0) + cp(hp[2])
     return c + sum(1 for x in (chg, pre, suf, pr) if x)
 
 
@@ -166,6 +173,12 @@ def states(N, a, j=0, J=1):
                     if 2 + b + a <= N:
                         for hk in HK:
                             hopts.append((2 + b, (hs, hk, hp)))
+        # two hydrate parts (same separator spelling), e.g. MgCl2..6H2O..KCl: the second part's multiplier is its own
+        single = [(hc, h) for hc, h in hopts if h is not None]
+        for hc1, h1 in single:
+            for hc2, h2 in single:
+                if hc1 + hc2 + a <= N and h1[0] == h2[0]:
+                    hopts.append((hc1 + hc2, (h1, h2)))
         for hc, h in hopts:
             rem = N - a - hc
             if rem < 0:
@@ -176,6 +189,25 @@ def states(N, a, j=0, J=1):
                     choices = [lists[i] if i in which else [None] for i in range(4)]
                     for chg, pre, suf, pr in itertools.product(*choices):
                         yield (core, h, chg, pre, suf, pr)
+
+
+def multi_hydrate_states():
+    """two and three hydrate parts, every combination of absent/present multipliers (the notation's "hydrate parts with
+    leading counts"): core of cost ≤ 2, each hydrate part a single element, multipliers {∅, 7, 10}, both separators"""
+    for n in (1, 2):
+        for core in parts(n):
+            for sep in HYD:
+                for nh in (2, 3):
+                    if nh == 3 and n == 2:
+                        continue
+                    for els in itertools.product(EL[:3] if nh == 3 else EL, repeat=nh):
+                        for mults in itertools.product(["", "7", "10"], repeat=nh):
+                            h = tuple((sep, m, (("el", e, ""),)) for e, m in zip(els, mults))
+                            yield (core, h, None, None, None, None)
+    # and with decorations around a fixed body
+    for chg in CHG[:4]:
+        for suf in SUF[:2]:
+            yield ((("el", "Na", "2"), ("el", "C", ""), ("el", "O", "1.5")), (("..", "7", (("el", "H", "2"), ("el", "O", ""))), ("..", "", (("el", "Co", ""),))), chg, None, suf, None)
 
 
 def numeral_states():
@@ -238,8 +270,8 @@ def r_term(t, fmt):
 def render(state, fmt):
     core, h, chg, pre, suf, pr = state
     r = (prefix_render(pre, fmt) if pre else "") + r_part(core, fmt)
-    if h:
-        r += INFIX[fmt] + (h[1] if h[1] not in ("", "1") else "") + r_part(h[2], fmt)
+    for hp in hyd_parts(h):
+        r += INFIX[fmt] + (hp[1] if hp[1] not in ("", "1") else "") + r_part(hp[2], fmt)
     r += pr or ""
     if chg:
         mag = chg[1:]
